@@ -15,6 +15,8 @@ fn run_w<const B: usize, const L: usize, const NB: usize>(scn: &Obj) -> Value {
     match op {
         "enc" => {
             let a: Uint<B, L> = j_to_uint(&scn["a"]);
+            // the public size helpers and associated constants the byte forms are defined by
+            ev.rec("sizes", || vec![N(ruint::nbytes(B)), N(ruint::nlimbs(B)), N(Uint::<B, L>::BYTES), N(Uint::<B, L>::LIMBS), N(Uint::<B, L>::BITS)]);
             ev.rec("le_slice", || Raw(a.as_le_slice().to_vec()));
             ev.rec("le_bytes", || Raw(a.as_le_bytes().to_vec()));
             ev.rec("le_trim", || Raw(a.as_le_bytes_trimmed().to_vec()));
